@@ -1,6 +1,7 @@
 import FxVerif.Proofs.C06
 import FxVerif.Proofs.C05Ext
 import FxVerif.Proofs.C05Prompt
+import FxVerif.Proofs.C05Sol
 /-!
 # C06 — outgoing value is released only once the external chain can no longer run it
 
@@ -159,6 +160,7 @@ theorem created_after_observation (s0 : State) (h0 : IsInit s0) (ops : List Op) 
   have ht := T_run (s := s0) ht0 ops
   have hn := N_run (N_init h0) ops
   rw [runExt_fst] at hn
+  rw [runExt_eq]
   exact ⟨ht.batches, ht.calls, fun b hb => ht.batches b (hn.sub b hb), fun c hc => ht.calls c (hn.csub c hc)⟩
 
 /-- `refund_excludes_execution`, batches.  A batch cancelled for time-out at the observation of an event at external
@@ -247,8 +249,9 @@ theorem released_means_no_longer_executable (s0 : State) (h0 : IsInit s0) (ops :
     let x := (runExt s0 {} ops).2
     (∀ b ∈ x.created, b ∉ s.batches → ∀ h, ¬ admissible x (.observe h (.batch b.token b.nonce))) ∧
     (∀ c ∈ x.createdCalls, c ∉ s.calls → ∀ h ok, ¬ admissible x (.observe h (.result c.nonce ok))) := by
-  have hj := J_run (J_init h0) ops ha
+  have hj := J_run (J_init h0) ops ((admissibleRun_iff _ _ _).mp ha)
   rw [runExt_fst] at hj
+  rw [runExt_eq]
   have hs1 : solBatchNonceCmp = .lt := by decide
   have hs2 : solBatchTimeoutCmp = .lt := by decide
   have hs3 : solCallTimeoutCmp = .lt := by decide
@@ -256,15 +259,15 @@ theorem released_means_no_longer_executable (s0 : State) (h0 : IsInit s0) (ops :
   simp only
   constructor
   · intro b hb hnot h hadm
-    obtain ⟨hh, b', hb', ht, hn, hnonce, htime⟩ := hadm
-    have hnd : (((runExt s0 {} ops).2.created).map (·.nonce)).Nodup := by rw [hj.nonces]; exact nodup_range'
+    obtain ⟨hh, b', hb', ht, hn, hnonce, htime⟩ := (admissible_iff _ _).mp hadm
+    have hnd : (((runExtStd s0 {} ops).2.created).map (·.nonce)).Nodup := by rw [hj.nonces]; exact nodup_range'
     have heq : b' = b := nodup_map_inj (fun b : Batch => b.nonce) _ hnd b' hb' b hb hn
     subst heq
     simp only [hs1, hs2, Cmp.eval, decide_eq_true_eq] at hnonce htime
     exact hnot (hj.batches b' hb' hnonce (by omega))
   · intro c hc hnot h ok hadm
-    obtain ⟨hh, c', hc', hn, hdone, htime⟩ := hadm
-    have hnd : (((runExt s0 {} ops).2.createdCalls).map (·.nonce)).Nodup := by rw [hj.cnonces]; exact nodup_range'
+    obtain ⟨hh, c', hc', hn, hdone, htime⟩ := (admissible_iff _ _).mp hadm
+    have hnd : (((runExtStd s0 {} ops).2.createdCalls).map (·.nonce)).Nodup := by rw [hj.cnonces]; exact nodup_range'
     have heq : c' = c := nodup_map_inj (fun c : Call => c.nonce) _ hnd c' hc' c hc hn
     subst heq
     simp only [hs3, Cmp.eval, decide_eq_true_eq] at htime
@@ -277,7 +280,7 @@ theorem admissible_event_finds_record (s0 : State) (h0 : IsInit s0) (ops : List 
     (doObserve (run s0 ops) h ev).2 ≠ .panic ∧
     (∀ t n, ev = .batch t n → ∃ b ∈ (run s0 ops).batches, b.token = t ∧ b.nonce = n) ∧
     (∀ c ok, ev = .result c ok → ∃ cl ∈ (run s0 ops).calls, cl.nonce = c) := by
-  obtain ⟨ha1, ha2⟩ := admissibleRun_append ha
+  obtain ⟨ha1, ha2⟩ := admissibleRun_append ((admissibleRun_iff _ _ _).mp ha)
   have hj := J_run (J_init h0) ops ha1
   rw [runExt_fst] at hj
   have hs3 : solCallTimeoutCmp = .lt := by decide
@@ -316,11 +319,7 @@ theorem executed_never_refunded_call_partial (s : State) (h : Nat) (ev : Ev)
   have e1 : batchCleanupSrc = .observedExternal := by decide
   have e2 : callCleanupSrc = .observedExternal := by decide
   have hsol : solCallTimeoutCmp = .lt := by decide
-  have hobs : ∀ s2 : State, (cleanupCalls (cleanupBatches s2)).obsSuccess = s2.obsSuccess := by
-    intro s2
-    unfold cleanupCalls
-    simp only [foldl_refundCall_obsSuccess]
-    rfl
+  have hobs : ∀ s2 : State, (cleanupCalls (cleanupBatches s2)).obsSuccess = s2.obsSuccess := cleanup_obsSuccess
   intro c hc
   have hmem : c ∈ s.calls := by
     rw [(call_release_rule h s.calls).1] at hc
@@ -357,7 +356,7 @@ hypothesis cannot be dropped. -/
 theorem executed_never_refunded_call_run_partial (s0 : State) (h0 : IsInit s0) (ops : List Op)
     (ha : AdmissibleRun s0 {} ops) (hp : PromptRun s0 ops) :
     ∀ e ∈ (run s0 ops).settled, e.isCall = true → e.how = .refunded → e.id ∉ (run s0 ops).obsSuccess := by
-  have hk := K_run (K_init h0) (J_init h0) (inv_init h0) ops ha hp
+  have hk := K_run (K_init h0) (J_init h0) (inv_init h0) ops ((admissibleRun_iff _ _ _).mp ha) hp
   rw [runExt_fst] at hk
   exact hk.k1
 
